@@ -69,6 +69,9 @@ def list_case(cid, b):
     return out
 
 
+EXTRA = []          # further events produced by load_case (collected by run)
+
+
 def load_case(cid, what, text, tmproot, encoding="utf-8"):
     """the same content from every source; for encodings other than UTF-8 the content is bytes with the declaration /
     byte-order mark XML requires, and the str source does not apply"""
@@ -117,6 +120,34 @@ def load_case(cid, what, text, tmproot, encoding="utf-8"):
         rec("reader-s3", lambda: MosReader.from_s3("bkt", "k/doc.mos.xml").mos_object)
     finally:
         shutil.rmtree(d, ignore_errors=True)
+    ev2 = None
+    if encoding == "utf-8" and "verif" in text:
+        # the same path rewritten with other content of the same length, modification time kept (cp -p, rsync -t, a coarse
+        # clock): reading the path again gives the new content
+        text2 = text.replace("verif", "VERIF", 1)
+        first = list(outs)
+        outs.clear()
+        d2 = tempfile.mkdtemp(prefix="src-", dir=tmproot)
+        try:
+            p2 = os.path.join(d2, "latest.mos.xml")
+            with open(p2, "wb") as f:
+                f.write(text.encode("utf-8"))
+            st = os.stat(p2)
+            rec("file-before", lambda: MosFile.from_file(p2))
+            outs.clear()
+            with open(p2, "wb") as f:
+                f.write(text2.encode("utf-8"))
+            os.utime(p2, ns=(st.st_atime_ns, st.st_mtime_ns))
+            rec("str-rewritten", lambda: MosFile.from_string(text2))
+            rec("file-rewritten", lambda: MosFile.from_file(p2))
+            rec("reader-file-rewritten", lambda: MosReader.from_file(p2).mos_object)
+        finally:
+            shutil.rmtree(d2, ignore_errors=True)
+        ev2 = {"id": cid + ".rw", "k": "load", "what": what + "/rewritten", "outcomes": list(outs), "keys": [], "prefixGiven": False,
+               "prefixKey": 0, "size": 1, "sfx": "", "how": "", "result": [], "raised": "~"}
+        outs[:] = first
+    if ev2 is not None:
+        EXTRA.append(ev2)
     return {"id": cid, "k": "load", "what": what + "/" + encoding, "outcomes": outs, "keys": [], "prefixGiven": False, "prefixKey": 0, "size": 1, "sfx": "",
             "how": "", "result": [], "raised": "~"}
 
@@ -155,6 +186,8 @@ def run(report, tier, seed):
                 events.append(load_case("d%d" % n, c, text, tmproot, encoding=enc))
                 n += 1
     shutil.rmtree(tmproot, ignore_errors=True)
+    events += EXTRA
+    del EXTRA[:]
     bad, jst = pipeline.judge(events, "sources-" + report.prop, module="Trace_Sources")
     byid = {e["id"]: e for e in events}
     for b in bad:
